@@ -41,6 +41,20 @@ class NoDefaults:
     y: int
 
 
+@dataclasses.dataclass
+class WithPseudoFields:
+    """ClassVar / InitVar entries are not fields (dataclasses.fields() omits them)."""
+    name: str
+    created: typing.ClassVar[int] = 0            # bumped below: differs from its default
+    registry: typing.ClassVar[dict] = {}
+    scale: dataclasses.InitVar[int] = 1
+    size: int = 0
+
+    def __post_init__(self, scale):
+        type(self).created += 1
+        self.size = self.size * scale
+
+
 @attr.s
 class APlain:
     a = attr.ib()
@@ -71,5 +85,6 @@ INSTANCES = [
     "vf.dcls.Plain(vf.dcls.APlain(vf.dcls.Frozen(1)), 'x')",
     # values that are falsy / empty but differ from the default (factory)
     "vf.dcls.Plain(1, 'x', None)", "vf.dcls.Plain(1, '', ())", "vf.dcls.Plain(0, 'x', 0)",
+    "vf.dcls.WithPseudoFields('build')", "[vf.dcls.WithPseudoFields('a', size=3), vf.dcls.WithPseudoFields('b')]",
     'vf.dcls.Slotted(1, [])', "vf.dcls.APlain(1, 'x', None)", "vf.dcls.APlain(None, '', ())", 'vf.dcls.Frozen(0, 5, 0)',
 ]
